@@ -142,6 +142,90 @@ Theorem C02_view_and_describe_reachable :
 Proof. exact reachable_view_describe. Qed.
 Print Assumptions C02_view_and_describe_reachable.
 
+(* What convert carries: every coordinate (whatever its rank - a scalar
+   coordinate set with axes=() included) and every domain ancillary that a
+   coordinate reference of the derived field names is held by the derived
+   field.  The variant that skips coordinates with an empty axes tuple is
+   refuted in Refuted.v (C02_convert_drops_scalar_coordinate_refuted). *)
+Theorem C02_convert_carries_named :
+  forall s k full rk cs ancs,
+  Inv s -> In (CoordRef, rk, PRef cs ancs) (cons (fst (convert k full s))) ->
+  (forall c, In c cs -> exists t p, In (t, c, p) (cons (fst (convert k full s))) /\ is_coord t = true) /\
+  (forall term a, In (term, Some a) ancs -> exists p, In (DomainAnc, a, p) (cons (fst (convert k full s)))).
+Proof. exact convert_carries_named. Qed.
+Print Assumptions C02_convert_carries_named.
+
+(* Views of views.  The history language has registers: the field, and views
+   taken of any register by f.domain / Domain.fromconstructs(x.constructs) /
+   Domain(source=x, copy=False), to any depth (Model.wstate, wstep).  A view
+   records the container it is transitively a view of (_view_source) and has
+   its own, stale, _field_data_axes attribute.
+   (a) after any history every view's _view_source is the field's own container; *)
+Theorem C02_view_source_is_root :
+  forall ops, Forall (fun v => vsrc v = O) (views (wrun ops)).
+Proof. exact wrun_wf. Qed.
+Print Assumptions C02_view_source_is_root.
+
+(* (b) hence a set_construct / del_construct / set_data_axes / del_data_axes
+   issued through ANY view register - whatever its nesting depth and the route
+   by which it was taken - is the same call on the root: it mutates the
+   field's collection and every guard (spanned by a construct the view hides,
+   spanned by the field's data, named by a cell method) is evaluated against
+   the field's current state; two registers cannot be told apart; *)
+Theorem C02_views_act_on_root :
+  forall ops i j vi vj o,
+  nth_error (views (wrun ops)) i = Some vi -> nth_error (views (wrun ops)) j = Some vj ->
+  viewable o = true ->
+  wstep (wrun ops) (Through (S i) o) = wstep (wrun ops) (Through (S j) o) /\
+  root (fst (wstep (wrun ops) (Through (S i) o))) = fst (step (root (wrun ops)) o) /\
+  snd (wstep (wrun ops) (Through (S i) o)) = snd (step (root (wrun ops)) o).
+Proof. exact through_any_depth. Qed.
+Print Assumptions C02_views_act_on_root.
+
+(* (c) and consistency is preserved over every history of the register
+   language (calls on the field, taking views, calls through views).  The
+   variant "_view_source = source" is refuted in Refuted.v
+   (C02_view_source_immediate_refuted). *)
+Theorem C02_inv_reachable_views :
+  forall ops, wops_ok winit ops -> Inv (root (wrun ops)).
+Proof. exact wrun_inv. Qed.
+Print Assumptions C02_inv_reachable_views.
+
+(* (d) a field made with Field(source=f, copy=False) has its own container
+   (repaired code: handoff/C02-fix3-1.diff): calls on its collection leave this
+   field's registered keys, data axes of every construct, data shape, data
+   axes and every construct other than the shared coordinate reference objects
+   as they were (a deletion there removes the name from the shared objects,
+   which is what copy=False asks for) - and this field stays consistent
+   (C02_inv_reachable_views covers OnSibling). *)
+Theorem C02_sibling_field_separate :
+  forall w ks, let w' := fst (wstep w (OnSibling ks)) in
+  views w' = views w /\ ctys (root w') = ctys (root w) /\ caxes (root w') = caxes (root w) /\
+  fshape (root w') = fshape (root w) /\ faxes (root w') = faxes (root w) /\
+  (forall t k, t <> CoordRef -> cget t k (cons (root w')) = cget t k (cons (root w))) /\
+  (Inv (root w) -> Inv (root w')).
+Proof.
+  exact (fun w ks =>
+    match clean_names_frame ks (root w) with
+    | conj A (conj B (conj C (conj D E))) =>
+        conj eq_refl (conj A (conj B (conj C (conj D (conj E (clean_names_inv ks (root w)))))))
+    end).
+Qed.
+Print Assumptions C02_sibling_field_separate.
+
+(* non-vacuity: views at depth 1, 2, 3 (both routes, one taken before the data
+   axes changed); the views at depth 2 and 3 refuse to delete / resize an axis
+   that only the field's data span, and accept a consistent insertion. *)
+Theorem C02_nested_example :
+  map (fun n => snd (wstep (wrun (firstn n nested_history)) (nth n nested_history (TakeView 0 RSource))))
+      [6; 7; 8]%nat = [Rejected ValueErr; Rejected ValueErr; Done] /\
+  map vsrc (views (wrun nested_history)) = [O; O; O] /\
+  map vparent (views (wrun nested_history)) = [0; 1; 2]%nat /\
+  faxes (root (wrun nested_history)) = Some ["domainaxis1"%string; "domainaxis0"%string] /\
+  cget AuxCoord "auxiliarycoordinate0" (cons (root (wrun nested_history))) = Some (PArr (Some [1; 4]%Z) true None).
+Proof. exact nested_example. Qed.
+Print Assumptions C02_nested_example.
+
 (* The guard on inserted references is exact: the container does not validate
    the contents of a coordinate reference (by design), so a completed call can
    insert a dangling name. *)
